@@ -18,7 +18,7 @@ class C08(Spec):
     variant = "plain"
     shard = 4
     timeout = 900
-    env = {"PV_CASE_TIMEOUT": "40"}
+    env = {"PV_CASE_TIMEOUT": "150"}
     rule = ("live listeners with 1-3 workers; every round runs 1-12 client behaviours concurrently, for 1-30 rounds. "
             "Raw Tcp::Handler (T): connect+close, data+close, data/echo/close, data+shutdown(WR), data+RST, immediate RST, "
             "4 MB write requested then closed unread (pending writes at abort), the handler keeps the peer and sends to it (Peer::send) 150 ms after the connection has ended - when a fresh connection holds its "
